@@ -325,7 +325,7 @@ def run(ctx):
                 rule='per (run kind, max_workers, file mode, backend): DFS '
                      'over all completion orders of the varied process_map '
                      'call; non-trivial = more than one distinct order',
-                time_cap=ctx.budget or (150 if q else 2400), chunksize=1)
+                time_cap=ctx.budget or (600 if q else 4800), chunksize=1)
     cs = [{'nsrc': 2, 'nfreq': 2, 'kind': kind, 'k': 2, 'file': f,
            'tqdm': True, 'full': True}
           for kind in (('gradient',) if q else ('gradient', 'jvec'))
@@ -333,7 +333,7 @@ def run(ctx):
     ctx.explore('full-product-k2', FN, cs, engine='E3',
                 rule='max_workers=2: all schedules of ALL process_map calls '
                      'of the run (8 x 8 (x 8))',
-                time_cap=ctx.budget or (120 if q else 1200), chunksize=1)
+                time_cap=ctx.budget or (480 if q else 2400), chunksize=1)
     perms = list(itertools.permutations(range(4)))
     if q:   # 8 of the 24 orders: identity, reversal, rotations, swaps
         perms = [perms[i] for i in (0, 23, 9, 16, 7, 14, 3, 20)]
@@ -349,4 +349,4 @@ def run(ctx):
                 rule='real ProcessPoolExecutor, 4 tasks, completion orders '
                      '(8 representative in quick, all 24 in thorough) forced '
                      'by delays, fresh subprocess per batch',
-                time_cap=ctx.budget or (150 if q else 1500), chunksize=1)
+                time_cap=ctx.budget or (600 if q else 3000), chunksize=1)
